@@ -543,11 +543,15 @@ package moss
 //@ func StoreOptions.OpenFile
 //@   requires @readOnlyFlag readOnlyMode() ==> flag == 0
 
+// Ghost: a removal of superseded data files has failed.
+//@ ghost var removalFailed bool
 //@ func removeFiles(dir string, fnames []string) error
 //@   props C18
 //@   attr obligations call-requires
 //@   attr only-labels notReadOnly readOnlyFlag
 //@   requires @notReadOnly !readOnlyMode()
+//@   modifies removalFailed
+//@   ensures @assume_flag removalFailed == (old(removalFailed) || result != nil)
 //@   loop 1: invariant true
 
 //@ func ReadFooter(options *StoreOptions, file File) (*Footer, error)
@@ -557,11 +561,15 @@ package moss
 //@   trusted reads the first page through the handle it is given
 
 // The data files are tried from the newest name to the oldest (the recovery
-// of C05 starts from the most recent file that can be opened and parsed).
+// of C05 starts from the most recent file that can be opened and parsed); a
+// file that cannot be used - it cannot be opened, its header or its footers
+// cannot be read - is skipped: once candidates exist, the only failure inside
+// the loop is a failed removal of the superseded files (S3).
 //@ func openStore(dir string, options StoreOptions) (*Store, error)
 //@   props C18 C05 C04
-//@   attr obligations call-requires decreases
-//@   attr only-labels notReadOnly readOnlyFlag
+//@   attr obligations call-requires decreases ensures
+//@   attr only-labels notReadOnly readOnlyFlag onlyCleanupFails
+//@   return 3: @onlyCleanupFails removalFailed
 //@   requires @modeLinked readOnlyMode() == options.CollectionOptions.ReadOnly
 //@   modifies *
 //@   loop 1: invariant options.CollectionOptions.ReadOnly == readOnlyMode()
